@@ -10,12 +10,16 @@ Two instances of the technique:
  (B) Run.tla: generated csvpaths x combinations of logic-mode, return-mode, unmatched-mode, run-mode,
      print-mode in the outer comment; traces validated by RunTrace (no-matches inverts the per-line
      decision, keep partitions the records read into returned/unmatched, no-run reads nothing,
-     print-mode no-default silences standard out only)."""
+     print-mode no-default silences standard out only).
+ (C) SameRun.tla 'silent': a CsvPath as a user makes it (no printer but the default one) runs the same generated csvpath with and
+     without print-mode: no-default: the same run call by call, and nothing on standard out."""
+import copy
 import json
 import os
+import random
 
 from checks import runfam
-from lib import common, scratch
+from lib import common, gen, runtrace, samerun, scratch
 from lib.tlc import run_tlc, require_ok, MachineryError
 
 PID = "C15"
@@ -78,10 +82,48 @@ def meta_part(rep, tier):
     rep.evaluations += len(recs)
 
 
+def _bare_pair(args):
+    seed, i = args
+    rng = random.Random(seed * 1000003 + i)
+    case = gen.make_case(rng, i, groups=("core", "control", "print"), modes=True)
+    out = []
+    for nd in (False, True):
+        c = copy.deepcopy(case)
+        c["cfg"]["noDefaultPrint"] = nd
+        out.append(runtrace.run_case(c, "collect", bare=True))
+    return out
+
+
+def bare_pairs(rep, tier):
+    """print-mode no-default removes standard-out printing ONLY: the same generated csvpath (print components with named streams and
+    follow-up functions among control functions, under the other mode settings) run by a CsvPath as a user makes it - its only
+    printer the default one - with and without 'print-mode: no-default'. SameRun 'silent': call by call the same run (lines,
+    counters, stop point, validity, votes, variables), the same delivered and unmatched lines, and nothing on standard out."""
+    n = 500 if tier == "quick" else 6000
+    outs = common.pmap(_bare_pair, [(common.seed() + 1515, i) for i in range(n)], initializer=scratch.enter_scratch)
+    cases, infos = [], {}
+    for i, pair in enumerate(outs):
+        (r0, i0), (r1, i1) = pair
+        if r0 is None or r1 is None:
+            continue
+        cases.append(samerun.case(i, r0, [samerun.other(r1, "silent", lines=True, unmatched=bool(r0["cfg"]["keepUnmatched"]))]))
+        infos[i] = {"csvpath": i1["csvpath"], "file_records": i1["records"], "stdout_without_the_setting": len(r0["final"]["stdout"])}
+    res, verdicts = samerun.validate(cases)
+    rep.add_tlc("SameRun 'silent': a bare CsvPath with print-mode: no-default against the same csvpath without it", res)
+    for c in cases:
+        v = verdicts[c["tid"]]
+        if v["verdict"] != "ok":
+            rep.violation({"kind": "print-mode-changed-the-run", "field": v["verdict"], "at_call": v.get("expected"), **infos[c["tid"]]})
+    rep.extra["bare_print_mode_pairs"] = len(cases)
+    rep.extra["bare_print_mode_pairs_that_print"] = sum(1 for c in cases if infos[c["tid"]]["stdout_without_the_setting"] > 0)
+    rep.evaluations += 2 * len(cases)
+    rep.traces += 2 * len(cases)
+
+
 def main(tier):
     n = 600 if tier == "quick" else 10000
     return runfam.run(PID, tier, groups=("core", "control", "print"), judged=JUDGED, ncases=n, seed_salt=1500,
-                      gen_opts={"modes": True}, pre=lambda rep: meta_part(rep, tier))
+                      gen_opts={"modes": True}, pre=lambda rep: (meta_part(rep, tier), bare_pairs(rep, tier)))
 
 
 def replay(path):
